@@ -3,9 +3,54 @@ import ShelxModel.C17
 open Lean Shelx.J
 
 namespace Shelx.Drv.C17
+open Shelx.C17
 
+def s2j (s : Str) : Json := Json.str (String.ofList s)
+
+def pairs (l : List (Str × Nat)) : Json :=
+  Json.arr (l.map fun (k, v) => Json.arr #[s2j k, ofNat v]).toArray
+
+def atomOf (j : Json) : Except String AtomE := do
+  match ← arr j with
+  | [n, r] => return { name := (← str n).toList, resi := ← nat r }
+  | _ => err "C17: atom is [name, residue]"
+
+def resiOf (j : Json) : Except String ResiE := do
+  match ← arr j with
+  | [c, r] => return { cls := (← str c).toList, num := ← nat r }
+  | _ => err "C17: residue is [class, number]"
+
+def outcome (o : Except PyErr Outcome) : Json :=
+  match o with
+  | .error .valueError => Json.mkObj [("err", Json.str "ValueError")]
+  | .ok o => Json.mkObj [("err", Json.null), ("bad", Json.arr (o.bad.map s2j).toArray), ("reported", pairs (reported o)),
+                         ("classMsg", Json.bool o.classMsg), ("anyMessage", Json.bool o.anyMessage)]
+
+/-- {"op":"check","atoms":[[name,resi]…],"resis":[[class,num]…],"kw":"SADI_CCF3","toks":[…]} →
+    model (the code with fixes C17_1..4), legacy (the code before them), spec -/
 def handle (j : Json) : Except String Json := do
   let op ← strField j "op"
-  err s!"C17: unknown op {op}"
+  match op with
+  | "check" =>
+    let atoms ← (← arrField j "atoms").mapM atomOf
+    let resis ← (← arrField j "resis").mapM resiOf
+    let f : File := { atoms, resis }
+    let r : Restr := { kw := (← strField j "kw").toList, atoms := (← field j "toks" >>= strs).map String.toList }
+    let spec := Json.mkObj [
+      ("missing", pairs (missing f r)),
+      ("wf", Json.bool (decide (WellFormed f r))),
+      ("classKnown", match kwSfx r.kw with
+                      | .cls _ => Json.bool (!(classUnknown f r))
+                      | _ => Json.null),
+      ("addressed", Json.arr (r.atoms.map fun t =>
+          if addressable t then ofNats (addressed f r t) else Json.null).toArray)]
+    return Json.mkObj [("model", outcome (assign f r)), ("legacy", outcome (Legacy.assign f r)), ("spec", spec)]
+  | "report" =>
+    -- a name as printed after 'Atom list has no -->' read back as (NAME, residue)
+    let names ← field j "names" >>= strs
+    return Json.mkObj [("pairs", pairs (names.map fun s => parseReport s.toList))]
+  | _ => err s!"C17: unknown op {op}"
+where
+  ofNats (l : List Nat) : Json := Json.arr (l.map ofNat).toArray
 
 end Shelx.Drv.C17
